@@ -20,7 +20,8 @@ RULE = ("(a) exhaustive: every flow grid of shape 1x1..2x2 (thorough adds "
         "Oracle: graph model - acc[c] = sum of field over cells whose walk "
         "passes through c (and the recursive form field[c] + sum acc[direct "
         "upstream]) for cells with a downstream cell, no-data elsewhere; "
-        "inputs unchanged. Non-trivial = field not uniform and some cell "
+        "inputs unchanged; plus grids of 6e4..1.8e6 cells (all flow east, "
+        "last column south) against cumulative sums. Non-trivial = field not uniform and some cell "
         "with >= 2 cells upstream.")
 
 
@@ -203,7 +204,63 @@ def random_oracle(case):
     return {"nt": nt, "labels": sorted(labels)}
 
 
+# ------------------------------------------------------------ large grids
+def enum_large(tier):
+    shapes = [(300, 400), (3, 20000), (20000, 3), (1, 46400)] \
+        if tier == "quick" else \
+        [(300, 400), (3, 20000), (20000, 3), (1, 46400), (1200, 1500),
+         (2, 70000)]
+    for nr, nc in shapes:
+        for fk in ("unit", "pattern"):
+            yield {"nrows": nr, "ncols": nc, "field": fk}
+
+
+def large_oracle(case):
+    """Every cell flows east, the last column flows south to one sink: the
+    accumulation is a cumulative sum along each row and of the row totals
+    down the last column."""
+    quiet()
+    nr, nc = case["nrows"], case["ncols"]
+    fd = np.ones((nr, nc), dtype=np.int64)
+    fd[:, -1] = 4
+    fd[-1, -1] = 0
+    r, c = np.meshgrid(np.arange(nr), np.arange(nc), indexing="ij")
+    if case["field"] == "unit":
+        field, f = None, np.ones((nr, nc))
+    else:
+        # zeros, negatives and fractions
+        f = ((r * 7 + c * 3) % 11 - 2) * 0.25
+        field = f.copy()
+    nodata = -9999.
+    g, ta, accg = run_accumulate(fd, field, nodata, np.int64, 10**9, -1)
+    acc = np.asarray(accg.data, dtype=np.float64)
+    exp = np.cumsum(f, axis=1)
+    exp[:, -1] = np.cumsum(f.sum(axis=1))
+    sink_nodata = float(accg.nodata)
+    if acc.shape != exp.shape:
+        raise Violation(f"accumulated grid has shape {acc.shape}")
+    if acc[-1, -1] != sink_nodata:
+        raise Violation(f"the sink holds {acc[-1, -1]!r}, not the no-data "
+                        f"value {sink_nodata!r}")
+    exp[-1, -1] = sink_nodata
+    bad = np.abs(acc - exp) > 1e-9 * np.maximum(1., np.abs(exp))
+    if bad.any():
+        i, j = np.argwhere(bad)[0]
+        raise Violation(
+            f"{nr}x{nc} grid flowing east then south, field "
+            f"{case['field']}: accumulation[{i},{j}] = {acc[i, j]!r}, sum "
+            f"over the upstream cells = {exp[i, j]!r} ({int(bad.sum())} "
+            "cells differ)")
+    if not np.array_equal(np.asarray(g.data), fd) or (
+            field is not None and not np.array_equal(np.asarray(ta.data), f)):
+        raise Violation("input grids altered")
+    return {"nt": True, "labels": [f"cells:{nr * nc}",
+                                   f"longest-path:{nr + nc - 2}"]}
+
+
 SUBS = [
+    Sub("C11.large-grids", large_oracle, enumerate=enum_large,
+        shards=(8, 12)),
     Sub("C11.exhaustive-small-grids", exhaustive_oracle,
         enumerate=enum_cases, shards=(16, 16)),
     Sub("C11.random-grids", random_oracle, strategy=random_case,
